@@ -271,6 +271,17 @@ let run_hs_accept kvs _ =
       (match res.ar_copts with Some c -> hexb (render_copts c) | None -> "-") (hexb res.ar_subproto) (co_str res.ar_copts)
   else Printf.sprintf "status=%d hijacked=0 accept=- proto=- ext=- connproto=- co=-" st
 
+(* suite hs-pair: the composition Dial -> Accept -> verifyServerResponse of Model/HsCompose.v *)
+let run_hs_pair kvs _ =
+  let o = { d_subprotocols = dec_list (get kvs "csubs"); d_mode = mode_of (get kvs "cmode") } in
+  let ao = { a_subprotocols = dec_list (get kvs "ssubs"); a_skip_verify = false; a_patterns = dec_list (get kvs "pats"); a_mode = mode_of (get kvs "smode") } in
+  let key64 = bytes_of_string "dGhlIHNhbXBsZSBub25jZQ==" in
+  let a = accept_decide (lib_request (bytes_of_string "example.com") o key64) ao in
+  if int_of_nat a.ar_status <> 101 then "ok=0 accepted=0" else
+  match verify_server_response o key64 (lib_response a) with
+  | VErr -> "ok=0 accepted=1"
+  | VOk c -> Printf.sprintf "ok=1 accepted=1 csub=%s ssub=%s cco=%s sco=%s" (hexb a.ar_subproto) (hexb a.ar_subproto) (co_str c) (co_str a.ar_copts)
+
 let run_hs_dial kvs ikvs =
   let o = { d_subprotocols = dec_list (get kvs "subs"); d_mode = mode_of (get kvs "mode") } in
   (* the key Dial generated is an input (crypto/rand): the scripted peer derives the accept value from it; the model
@@ -898,6 +909,7 @@ let suites : (string * ((string * string) list -> (string * string) list -> stri
   "sched", run_sched;
   "hs-accept", run_hs_accept;
   "hs-dial", run_hs_dial;
+  "hs-pair", run_hs_pair;
   "pair", run_pair;
   "close", run_close;
   "wire-in", run_wirein;
